@@ -60,9 +60,15 @@ def seq_step(W, sym, k, root):
     bp = None if var == 3 else VALID_BP_TOML.replace("verif/vb", f"verif/{tag}").replace("1.2.3", f"1.0.{var}") + f'\n[metadata]\nk = "{tag}"\n'
     dump = os.path.join(root, f"dump-{k}.json")
     script = os.path.join(root, f"script-{k}.json")
+    # what the invocation writes (removed before every step, collected after it); store.toml is reset
+    # to the variant's content before the step, so it is compared as well
+    outputs = [w.p("plan.toml"), w.p("layers", "launch.toml"), w.p("layers", "build.sbom.cdx.json"), w.p("layers", "launch.sbom.spdx.json")]
     writes = [[w.p("bp", "buildpack.toml"), bp], [w.p("platform", "env", "VAR"), tag], [w.p("platform", "env", "ONLY2"), "two" if var == 2 else None],
               [w.p("bp_plan.toml"), f'[[entries]]\nname = "dep-{tag}"\n\n[entries.metadata]\nv = "{tag}"\n'], [w.p("layers", "store.toml"), f'[metadata]\ns = "{tag}"\n'],
-              [script, json.dumps({"dump": dump, "log": w.log})], [dump, None]]
+              [script, json.dumps({"dump": dump, "log": w.log, "detect": {"kind": "pass_plan", "plan": [["provides", f"p-{tag}"], ["requires", f"r-{tag}"]]},
+                                   "build": {"kind": "pass", "launch": {"processes": [{"type": "web", "command": [f"run-{tag}"], "args": [], "default": True}], "labels": [[f"l-{tag}", tag]]},
+                                             "store": {"written-by": tag}, "build_sboms": [["cdx", json.dumps({"sbom": tag})]], "launch_sboms": [["spdx", json.dumps({"sbom": tag})]]}})],
+              [dump, None]] + [[f, None] for f in outputs]
     env = dict(DEFAULT_TARGET_ENV)
     env["CNB_TARGET_ARCH"] = ["amd64", "arm64", "amd64"][var - 1]
     env["CNB_TARGET_DISTRO_VERSION"] = f"{var}.04"
@@ -71,7 +77,7 @@ def seq_step(W, sym, k, root):
     env["CNB_BUILDPACK_DIR"] = w.p("bp")
     env["VB_SCRIPT"] = script
     args = [w.p("platform"), w.p("plan.toml")] if phase == "detect" else [w.p("layers"), w.p("platform"), w.p("bp_plan.toml")]
-    return {"phase": phase, "cwd": w.p("app"), "env": env, "args": args, "writes": writes, "collect": []}, dump
+    return {"phase": phase, "cwd": w.p("app"), "env": env, "args": args, "writes": writes, "collect": outputs + [w.p("layers", "store.toml")]}, dump
 
 
 def run_seq(W, syms, root):
@@ -93,11 +99,11 @@ def run_seq(W, syms, root):
         if os.path.exists(d):
             dump = json.load(open(d))
             os.unlink(d)
-        out.append({"ok": step_res["ok"], "code": step_res.get("code"), "error": step_res.get("error"), "dump": dump})
+        out.append({"ok": step_res["ok"], "code": step_res.get("code"), "error": step_res.get("error"), "dump": dump, "files": step_res.get("files")})
     return out, ""
 
 
-def judge_sequence(root, case):
+def judge_sequence(root, case, compare="context"):
     """differential oracle: every step of an in-process sequence of detect/build calls must give the
     buildpack code the same context (and the caller the same result) as that step run alone in a
     fresh process"""
@@ -121,9 +127,19 @@ def judge_sequence(root, case):
         return v, "sequence:died"
     for k, (sym, g) in enumerate(zip(syms, got)):
         want = solo[sym]
+        if compare == "context":
+            # C06 judges what the buildpack code is handed (and whether it is reached); the files
+            # an invocation leaves are C05's subject (checks/c05.py runs the same sequences for them)
+            g, want = dict(g, files=None), dict(want, files=None)
+        else:
+            g, want = dict(g, dump=None), dict(want, dump=None)
         if g != want:
             field = "result"
-            if g["ok"] == want["ok"] and g["dump"] and want["dump"]:
+            if compare == "outputs" and g["ok"] == want["ok"] and g["code"] == want["code"]:
+                field = "outputs"
+                bad_files = [f for f in want["files"] if g["files"].get(f) != want["files"][f]]
+                detail = "; ".join(f"{os.path.basename(f)}: {bytes.fromhex(g['files'][f] or '')[:120]!r} instead of {bytes.fromhex(want['files'][f] or '')[:120]!r}" for f in bad_files[:3])
+            elif g["ok"] == want["ok"] and g["dump"] and want["dump"]:
                 field = next((f for f in want["dump"]["context"] if g["dump"]["context"].get(f) != want["dump"]["context"][f]), "dump")
                 detail = f"{field}: {json.dumps(g['dump']['context'].get(field))[:300]} instead of {json.dumps(want['dump']['context'][field])[:300]}"
             else:
@@ -466,7 +482,7 @@ def run(ctx):
     res.cov("distinct_nontrivial", nontrivial)
     res.cov("distinct_outcomes", sorted(outcomes))
     res.cov("determinism_replays", 6)
-    res.cov("rule", "platform env: all sets of <=2 (thorough: <=3 over a reduced kind set) entries with distinct names over 6 names (dots, space, '=', non-ASCII, non-UTF-8) x 9 kinds (4 file contents, directory, symlink to file/dir, dangling, non-UTF-8 content); env/platform dir missing; values of 2^k-1, 2^k, 2^k+1 bytes for k in {12,16,17,20}; target: every present/absent x value combination of the five CNB_TARGET_* variables (quick: <=2 non-default) over values {linux, '', 'a b', non-UTF-8}; TOML: every value kind (18 strings, ints incl. extremes, floats incl. inf/nan/-0, bools, 4 datetime kinds, arrays/tables depth 2) in plan entry metadata, store and descriptor metadata; all through the real detect/build runtime; directory spellings: layers / platform / buildpack directory each given plain, through a symlink, relative to the working directory, or with redundant segments (4^3 build + 4^2 detect cases), the context must name them as supplied and still find env, store and descriptor; in-process sequences: every sequence of 2..3 (thorough: ..4) programmatic libcnb_runtime_detect/libcnb_runtime_build calls in ONE process over 12 symbols (2 worlds x 3 content variants of descriptor, platform env, plan, store and target variables, one of them with the descriptor removed, x 2 phases), each step compared with the same invocation run alone in a fresh process. non-trivial = case with at least one non-default input")
+    res.cov("rule", "platform env: all sets of <=2 (thorough: <=3 over a reduced kind set) entries with distinct names over 6 names (dots, space, '=', non-ASCII, non-UTF-8) x 9 kinds (4 file contents, directory, symlink to file/dir, dangling, non-UTF-8 content); env/platform dir missing; values of 2^k-1, 2^k, 2^k+1 bytes for k in {12,16,17,20}; target: every present/absent x value combination of the five CNB_TARGET_* variables (quick: <=2 non-default) over values {linux, '', 'a b', non-UTF-8}; TOML: every value kind (18 strings, ints incl. extremes, floats incl. inf/nan/-0, bools, 4 datetime kinds, arrays/tables depth 2) in plan entry metadata, store and descriptor metadata; all through the real detect/build runtime; directory spellings: layers / platform / buildpack directory each given plain, through a symlink, relative to the working directory, or with redundant segments (4^3 build + 4^2 detect cases), the context must name them as supplied and still find env, store and descriptor; in-process sequences: every sequence of 2..3 (thorough: ..4) programmatic libcnb_runtime_detect/libcnb_runtime_build calls in ONE process over 12 symbols (2 worlds x 3 content variants of descriptor, platform env, plan, store and target variables, one of them with the descriptor removed, x 2 phases), each step (result and context handed to the buildpack code; the files it leaves are compared by C05) compared with the same invocation run alone in a fresh process. non-trivial = case with at least one non-default input")
     res.cov("exhaustive", True)
     res.sample(cs[3])
     res.sample(cs[len(cs) // 2])
